@@ -209,6 +209,41 @@ theorem C18_timestamp_needs_shape :
     leafSound "2011-11-04T00:05:23" (.typed "datetime" "2011-11-04 00:05:23") = true := by
   refine ⟨by decide +kernel, by decide +kernel, by decide +kernel⟩
 
+/-- C18_timestamp_keeps_zone: a timestamp written with an offset is faithfully converted only to a value that carries
+    the same offset (`Z` being `+00:00`); dropping the offset, or reading the day or the hour differently, is not faithful -/
+theorem C18_timestamp_keeps_zone :
+    leafSound "2020-01-01T10:30:00+02:00" (.typed "datetime" "2020-01-01 10:30:00+02:00") = true ∧
+    leafSound "2020-01-01T10:30:00+02:00" (.typed "datetime" "2020-01-01 10:30:00") = false ∧
+    leafSound "2021-06-30T23:15:00Z" (.typed "datetime" "2021-06-30 23:15:00+00:00") = true ∧
+    leafSound "2021-06-30T23:15:00Z" (.typed "datetime" "2021-06-30 23:15:00") = false ∧
+    leafSound "2021-06-30T23:15:00-05:30" (.typed "datetime" "2021-06-30 23:15:00+05:30") = false ∧
+    leafSound "2021-06-30T23:15:00" (.typed "datetime" "2021-06-30 23:15:00+00:00") = false ∧
+    leafSound "2021-06-30T23:15:00" (.typed "datetime" "2021-06-30 21:15:00") = false := by
+  refine ⟨by decide +kernel, by decide +kernel, by decide +kernel, by decide +kernel, by decide +kernel,
+    by decide +kernel, by decide +kernel⟩
+
+/-- the zone test is general: whenever a timestamp conversion is judged faithful, text and value agree on the zone -/
+theorem C18_timestamp_zone_agrees (s p : String) (hs : isIsoTimestamp s.toList = true)
+    (h : leafSound s (.typed "datetime" p) = true) : zoneOf s.toList = zoneOf p.toList := by
+  simp only [leafSound, hs, Bool.true_and, Bool.or_eq_true, Bool.and_eq_true] at h
+  rcases h with h | h
+  · simp only [sameInstantText, Bool.and_eq_true] at h
+    exact eq_of_beq h.2
+  · have hd := h.1.1
+    -- a text cannot be both a ten-character date and a longer timestamp
+    exfalso
+    have h10 : s.toList.length = 10 := by
+      generalize s.toList = l at hd
+      unfold isIsoDate at hd
+      split at hd
+      · simp
+      · simp at hd
+    have : isIsoTimestamp s.toList = false := by
+      unfold isIsoTimestamp
+      have : s.toList.drop 10 = [] := by simp [List.drop_eq_nil_iff, h10]
+      simp [this]
+    simp [this] at hs
+
 theorem length_castListWith (E : Engine) (f : String → CV) : ∀ xs, (castListWith E f xs).length = xs.length
   | [] => by simp [castListWith]
   | _ :: xs => by simp [castListWith, length_castListWith E f xs]
